@@ -289,7 +289,8 @@ func (app *App) addPrefixToRoute(prefix string, route *Route) *Route {
 	// the parameter names are those of the whole path, as for a route registered under the prefix
 	route.Params = parseRoute(prefixedPath, app.customConstraints...).params
 	route.root = false
-	route.star = false
+	// as in register: the wildcard shortcut applies exactly when the whole path is "/*"
+	route.star = route.path == "/*"
 
 	return route
 }
